@@ -103,6 +103,17 @@ pub fn entries(rng: &mut Rng, max: usize, small_names: bool, finite: bool) -> En
     (0..rng.range(0, max)).map(|_| (name(rng, small_names), val(rng, finite))).collect()
 }
 
+/// Entries with pairwise distinct names (what a `TracedValues` can hold).
+pub fn entries_nodup(rng: &mut Rng, max: usize, small_names: bool, finite: bool) -> Entries {
+    let mut out: Entries = vec![];
+    for (k, v) in entries(rng, max, small_names, finite) {
+        if !out.iter().any(|e| e.0 == k) {
+            out.push((k, v));
+        }
+    }
+    out
+}
+
 pub fn field_names(rng: &mut Rng, n: usize) -> Vec<String> {
     (0..n).map(|i| format!("f{i}")).map(|s| if rng.chance(1, 16) { "message".to_owned() } else { s }).collect()
 }
